@@ -192,6 +192,20 @@ impl<S: Storage> Builder<S> {
         })
     }
 
+    /// Resolve the key lists of an equi-join on their inputs.
+    ///
+    /// The join executors compare keys as `DataValue`s, for which `Int32(1) != Int64(1)`. A pair of
+    /// keys of different types is therefore cast to their common type, as the `=` kernel does.
+    fn resolve_join_keys(&self, lkeys: Id, rkeys: Id, left: Id, right: Id) -> (RecExpr, RecExpr) {
+        let lexpr = self.resolve_column_index(lkeys, left);
+        let rexpr = self.resolve_column_index(rkeys, right);
+        let (ltypes, rtypes) = (self.plan_types(lkeys), self.plan_types(rkeys));
+        let common = (ltypes.iter().zip(rtypes))
+            .map(|(l, r)| if l == r { None } else { l.union(r) })
+            .collect_vec();
+        (cast_keys(lexpr, &common), cast_keys(rexpr, &common))
+    }
+
     /// Returns the catalog.
     fn catalog(&self) -> &RootCatalogRef {
         self.optimizer.catalog()
@@ -484,9 +498,10 @@ impl<S: Storage> Builder<S> {
     fn build_hashjoin<const T: JoinType>(&mut self, args: [Id; 6]) -> BoxedExecutor {
         let [_, cond, lkeys, rkeys, left, right] = args;
         assert_eq!(self.node(cond), &Expr::true_());
+        let (left_keys, right_keys) = self.resolve_join_keys(lkeys, rkeys, left, right);
         HashJoinExecutor::<T> {
-            left_keys: self.resolve_column_index(lkeys, left),
-            right_keys: self.resolve_column_index(rkeys, right),
+            left_keys,
+            right_keys,
             left_types: self.plan_types(left).to_vec(),
             right_types: self.plan_types(right).to_vec(),
         }
@@ -495,17 +510,18 @@ impl<S: Storage> Builder<S> {
 
     fn build_hashsemijoin(&mut self, args: [Id; 6], anti: bool) -> BoxedExecutor {
         let [_, cond, lkeys, rkeys, left, right] = args;
+        let (left_keys, right_keys) = self.resolve_join_keys(lkeys, rkeys, left, right);
         if self.node(cond) == &Expr::true_() {
             HashSemiJoinExecutor {
-                left_keys: self.resolve_column_index(lkeys, left),
-                right_keys: self.resolve_column_index(rkeys, right),
+                left_keys,
+                right_keys,
                 anti,
             }
             .execute(self.build_id(left), self.build_id(right))
         } else {
             HashSemiJoinExecutor2 {
-                left_keys: self.resolve_column_index(lkeys, left),
-                right_keys: self.resolve_column_index(rkeys, right),
+                left_keys,
+                right_keys,
                 condition: self.resolve_column_index2(cond, left, right),
                 left_types: self.plan_types(left).to_vec(),
                 right_types: self.plan_types(right).to_vec(),
@@ -518,9 +534,10 @@ impl<S: Storage> Builder<S> {
     fn build_mergejoin<const T: JoinType>(&mut self, args: [Id; 6]) -> BoxedExecutor {
         let [_, cond, lkeys, rkeys, left, right] = args;
         assert_eq!(self.node(cond), &Expr::true_());
+        let (left_keys, right_keys) = self.resolve_join_keys(lkeys, rkeys, left, right);
         MergeJoinExecutor::<T> {
-            left_keys: self.resolve_column_index(lkeys, left),
-            right_keys: self.resolve_column_index(rkeys, right),
+            left_keys,
+            right_keys,
             left_types: self.plan_types(left).to_vec(),
             right_types: self.plan_types(right).to_vec(),
         }
@@ -629,4 +646,22 @@ impl Drop for AbortOnDropHandle {
     fn drop(&mut self) {
         self.0.abort();
     }
+}
+
+/// Wrap the i-th element of the list `keys` in a cast to `types[i]`, if any.
+fn cast_keys(keys: RecExpr, types: &[Option<DataType>]) -> RecExpr {
+    let mut nodes = keys.as_ref().to_vec();
+    let Some(Expr::List(ids)) = nodes.pop() else {
+        panic!("join keys must be a list");
+    };
+    let mut ids = ids.to_vec();
+    for (id, ty) in ids.iter_mut().zip(types) {
+        if let Some(ty) = ty {
+            nodes.push(Expr::Type(ty.clone()));
+            nodes.push(Expr::Cast([Id::from(nodes.len() - 1), *id]));
+            *id = Id::from(nodes.len() - 1);
+        }
+    }
+    nodes.push(Expr::List(ids.into()));
+    RecExpr::from(nodes)
 }
